@@ -66,8 +66,12 @@ def impl_translate(ip, net, nat, bits):
 def impl_alloc(net, lo, hi, n):
     from avocado_i2n.vmnet.netconfig import VMNetconfig
     nc = VMNetconfig()
+    # the pool as from_interface builds it from the configured "lo-hi" range (both ends included)
+    iface = mock.MagicMock()
+    iface.params = {"netmask": "255.255.255.0", "range": f"{lo}-{hi}"}
+    iface.ip = dotted((net & 0xFFFFFF00) + 1)
+    nc.from_interface(iface)
     nc.net_ip = dotted(net)
-    nc._range = {i: False for i in range(lo, hi + 1)}
     out = []
     for _ in range(n):
         try:
